@@ -77,10 +77,70 @@ def rule_values(chk, fb):
             chk.ob(rc, "setter-keeps-formula:%s" % c.split("::")[-1], not bad, where=fb.loc(c), detail="reader-side setter for t=%r %s" % (tval, "does not touch the formula" if not bad else "reaches %s: <c t=%r><f>..</f><v>..</v></c> loses its formula" % (bad[0].split("::")[-1], tval)))
 
 
+def rule_shared_table_scope(chk, fb):
+    """Children of a shared formula usually sit in later rows than their master: the table that carries the master's
+    text from one <c> to the next has to live as long as the sheet is read, not as long as a row."""
+    from cfg import CFG
+
+    r = chk.rule(
+        "C03.b.table",
+        "the shared-formula table spans the sheet: the table handed to the row reader is created once, outside the loop over the rows (in the function that contains that loop, or further up the call chain when it is passed down as a parameter)",
+        floor=2,
+    )
+    tgt = [d for d, b in fb.mir.items() if b.get("self_ty", "").endswith("::Row") and d.split("::")[-1] == "set_attributes"]
+
+    def scope(fn, bi, op, depth=0):
+        """(ok, why) for the table operand `op` of the call in block bi of fn."""
+        b = fb.mir[fn]
+        fl = Flow(fb, b)
+        cfg = CFG(b)
+        at = fl.atoms(op)
+        prod = [a for a in at if a[0] == "call" and a[1].startswith("std::collections::HashMap::") and a[1].split("::")[-1] in ("new", "default", "with_capacity")]
+        in_loop = [l for l in (cfg.natural_loop(tl, hd) for tl, hd in cfg.back_edges()) if bi in l]
+        if prod:
+            if any(p_[2] in l for p_ in prod for l in in_loop):
+                return False, "the table is re-created inside the row loop of %s" % fn.split("::")[-1]
+            if in_loop:
+                return True, "created once in %s, outside its row loop" % fn.split("::")[-1]
+            # created here, but the rows are iterated by the caller: one table per call = per row
+            callers = [(c, cb_, ct) for c in sorted({x[0] for x in fb.callers.get(fn, ())}) if c in fb.mir for cb_, ct in fb.calls_in(fb.mir[c]) if ct.get("fn") == fn]
+            looped = any(cb_ in l for c, cb_, ct in callers for l in (CFG(fb.mir[c]).natural_loop(tl, hd) for tl, hd in CFG(fb.mir[c]).back_edges()))
+            return (not looped), ("created in %s, which is called once per row: the table lives for one row only" % fn.split("::")[-1] if looped else "created once in %s" % fn.split("::")[-1])
+        params = [a[1] for a in at if a[0] == "arg"]
+        if params and depth < 3:
+            res = []
+            for c in sorted({x[0] for x in fb.callers.get(fn, ())}):
+                if c not in fb.mir:
+                    continue
+                for cb_, ct in fb.calls_in(fb.mir[c]):
+                    if ct.get("fn") == fn:
+                        for pi in params:
+                            if pi - 1 < len(ct["args"]):
+                                res.append(scope(c, cb_, ct["args"][pi - 1], depth + 1))
+            if res:
+                bad = [w for ok_, w in res if not ok_]
+                return (not bad), (bad[0] if bad else res[0][1] + " and passed down")
+        return False, "origin of the table not found"
+
+    n = 0
+    for d, b in sorted(fb.mir.items()):
+        for bi, t in fb.calls_in(b):
+            if t.get("fn") not in tgt:
+                continue
+            idx = [i for i, a in enumerate(t["args"]) if "p" in a and "HashMap<u32" in fb.ty(b["locals"][a["p"]["l"]]["t"])]
+            if not idx:
+                continue
+            ok, why = scope(d, bi, t["args"][idx[0]])
+            chk.touch(d)
+            chk.ob(r, "%s#%d" % (d.split("::", 2)[-1] if d.count("::") > 1 else d, n), ok, where="%s:%s" % (b["file"], t["ln"]), detail=why)
+            n += 1
+
+
 def run(chk, fb, tier):
     channels.rule_attr_unescape(chk, fb, "C03.a")
     rule_shared_formula(chk, fb)
     rule_values(chk, fb)
+    rule_shared_table_scope(chk, fb)
     import symmetry
 
     symmetry.rule_enum_spec(chk, fb, "C03.d", "read")
